@@ -18,6 +18,7 @@ CHECK = {
                   "Bound completed per configuration is in the evidence.",
     "quick_deadline": 100,
     "thorough_deadline": 1200,
-    "parts": [{"name": "photon-loop", "bin": "c01_photon"}],
+    "parts": [{"name": "photon-loop", "bin": "c01_photon", "share": 9.0},
+              {"name": "packet-split", "bin": "c01_split", "share": 1.0}],
     "assumptions": [],
 }
